@@ -158,24 +158,24 @@ NOT_APPLICABLE = {
 
 # coverage added in the sixth and seventh round of seeded changes (DESIGN.md section 7), appended to the level texts
 ROUNDS_6_7 = {
-    "C02": "Families scaled to subnormal values (1e-310, 3e-320) and to 1e300; brackets next to the ends of the double range ([1e308,1.7e308], [-1.7e308,1.7e308]).",
-    "C03": "Regular families on similar copies of their intervals (factors 1e-6 .. 1e5), requests down to 1e-21 of the integral, quintics on intervals of one to three ulp; references evaluated without cancellation.",
+    "C02": "Families scaled to subnormal values (1e-310, 3e-320) and to 1e300; brackets next to the ends of the double range ([1e308,1.7e308], [-1.7e308,1.7e308]); the solved function itself calling Find_Root.",
+    "C03": "Regular families on similar copies of their intervals (factors 1e-6 .. 1e5), requests down to 1e-21 of the integral, quintics on intervals of one to three ulp; references evaluated without cancellation; the evaluation bound at explicit depths 18-21 on an integrand that never converges.",
     "C04": "Zero scalars, operands whose entries are 1-3 ulp apart, nearly parallel cross products, chained compound assignments and self-assignments, predicates on matrices at 2^-600 / 2^-1000 and with a single subnormal entry.",
     "C05": "Dense ill-conditioned matrices (Hilbert n<=6, rotated graded spectra, condition 1e2..8e7), each inversion first in a child with a 20 s limit.",
     "C06": "Gamma up to its overflow point 171.6 with an explicit finiteness test; whole-number shapes 4..5000 also passed as int and unsigned.",
-    "C07": "Success probabilities next to 0 and 1, fractional degrees of freedom, Poisson means 800..2500, every observed count 0..260 (unbinned and in one bin of three), shared parameter objects for PDF_Gauss_2D, digitised KDE samples.",
+    "C07": "Success probabilities next to 0 and 1, fractional degrees of freedom, Poisson means 800..2500, every observed count 0..260 (unbinned and in one bin of three), shared parameter objects for PDF_Gauss_2D, digitised KDE samples, -0.0 as the argument of every density and distribution function.",
     "C08": "Prefactors +-1e300, +-1e-300 on four tables.",
     "C10": "Two-argument interpolation requests inside one extrapolation zone; vectors and matrices without components made in four ways each; ragged last rows.",
     "C11": "Both 1D functions with the tolerance left to its default; restart from the object's own best vertex (argument aliasing the object).",
     "C12": "Polynomials that fall, rise or alternate over many orders of magnitude through all three overloads; integrals nested one to six levels deep.",
     "C13": "Every integrand also with sign and scale variants; intervals on the negative axis.",
-    "C14": "Subnormal-valued integrand letters, floating-point environment recorded before every observed call, front ends with the widths in every order, front ends nested in front ends (all nine method pairs; Vegas inside Vegas is a recorded finding).",
+    "C14": "Subnormal-valued integrand letters, floating-point environment recorded before every observed call, front ends with the widths in every order, front ends nested in front ends (all nine method pairs; Vegas inside Vegas is a recorded finding), the spherical front end with the Monte-Carlo methods, power-of-two budgets, containment with 1e6 samples in far-offset narrow boxes.",
     "C15": "Hollow symmetric matrices (complete for 3x3 and 4x4 over small alphabets), spectra with one vanishing eigenvalue, eigenvectors orthogonal to the start vector of the inverse iteration.",
     "C16": "Radii 1e+-154 .. 1.5e308, tilts from +-z down to the smallest subnormal, every integer axis up to 24 (40) per component and a generic lattice, in batches under a watchdog.",
     "C17": "Directions within 1e-100 .. 1e-7 of the poles.",
-    "C18": "Targets that vanish around the internally drawn start; Poisson means around the underflow of exp(-mean) (708..746).",
+    "C18": "Targets that vanish around the internally drawn start; Poisson means around the underflow of exp(-mean) (708..746); the acceptance rule on a V-shaped density.",
     "C19": "Unequal weights with unit mean; lists of neighbouring doubles in the list helpers.",
-    "C20": "Header lines consisting of numbers only, neighbours across a power of ten in the rounding overloads (oracle independent of Round), round trips under global locales with decimal comma / digit grouping, file entries below DBL_MIN.",
+    "C20": "Header lines consisting of numbers only, neighbours across a power of ten in the rounding overloads (oracle independent of Round), round trips under global locales with decimal comma / digit grouping, file entries below DBL_MIN, logarithmic ranges beyond 308 decades, per-column units on 3-4 columns, matrices of every shape up to 4x4.",
 }
 for _k, _v in ROUNDS_6_7.items():
     _t = list(CLAIMED[_k]); _t[2] = _t[2].rstrip() + " " + _v; CLAIMED[_k] = tuple(_t)
